@@ -167,9 +167,31 @@ pub fn run_case(idents: &[Ident], idx: u64, rng: &mut Rng, _thorough: bool, hist
                 break;
             }
             let _ = b.drain();
-            if rng.chance(3, 4) {
+            let with_pending: Vec<usize> = dump_table(&b.s.kbuckets.read()).0.iter().filter(|x| x.pending.is_some()).map(|x| x.idx).collect();
+            let mut forced: Option<u64> = None;
+            if !with_pending.is_empty() && rng.chance(1, 2) {
+                // the timeout of a pending node elapses (hook: 60 s of real time otherwise)
+                let i = *rng.pick(&with_pending);
+                b.s.kbuckets.write().verif_force_pending_ready(i);
+                let mut e = Enc::new();
+                e.n(hash_table(&recs, &b.s.kbuckets.read()));
+                steps.push(format!("(SReady {}, {})", i, e.coq()));
+                hist.add("c14:pending_timeout_elapses");
+                descr.push(J::s(format!("the pending node of bucket {} becomes ready", i)));
+                forced = Some(i as u64 + 1);
+            }
+            if forced.is_some() || rng.chance(3, 4) {
                 // FINDNODE
-                let ds = gen_distances(rng, &populated);
+                let mut ds = gen_distances(rng, &populated);
+                if let Some(d) = forced {
+                    // mostly ask for that distance (alone, last of several, or first)
+                    match rng.below(4) {
+                        0 => {}
+                        1 => ds = vec![d],
+                        2 => ds.push(d),
+                        _ => ds.insert(0, d),
+                    }
+                }
                 let id = gen_req_id(rng);
                 let from_requester = rng.chance(2, 3);
                 let rq = if from_requester { requester } else { rng.below(idents.len() as u64) as usize };
@@ -186,7 +208,18 @@ pub fn run_case(idents: &[Ident], idx: u64, rng: &mut Rng, _thorough: bool, hist
                 let msgs = b.drain();
                 let served = collect_served(&msgs, &addr, &local_id, rng);
                 let cur_local = b.s.local_enr.read().clone();
-                if let Some(m) = check_served(&served, &id, &ds, &idents[rq].id, &cur_local, &before, max_nodes, max_packet) {
+                // (the service loop turns applied pending nodes into NodeInserted events; take what it
+                // has not taken yet so that the dump does not depend on how far it got)
+                while b.s.kbuckets.write().take_applied_pending().is_some() {}
+                let after_hash = hash_table(&recs, &b.s.kbuckets.read());
+                // "its table entries": the entries once every pending node whose time has come is
+                // in its place - a plain iteration over the table applies them all (the answer itself
+                // applies those of the buckets it visits)
+                let _ = b.s.kbuckets.write().iter().count();
+                while b.s.kbuckets.write().take_applied_pending().is_some() {}
+                let settled = table_content(&b.s.kbuckets.read());
+                let _ = before;
+                if let Some(m) = check_served(&served, &id, &ds, &idents[rq].id, &cur_local, &settled, max_nodes, max_packet) {
                     failures.push(("C14".to_string(), m));
                 }
                 let total_recs: usize = served.packets.iter().map(|p| p.2.len()).sum();
@@ -210,7 +243,7 @@ pub fn run_case(idents: &[Ident], idx: u64, rng: &mut Rng, _thorough: bool, hist
                     }
                     e.n(*wire as u64);
                 }
-                e.n(hash_table(&recs, &b.s.kbuckets.read()));
+                e.n(after_hash);
                 fnv(&mut h, &format!("f{}:{}:{}", served.packets.len(), total_recs, ds.len().min(9)));
                 descr.push(J::s(format!("FINDNODE id={} distances={:?} from ident {}", hex::encode(&id), &ds[..ds.len().min(12)], rq)));
                 steps.push(format!(
@@ -220,6 +253,9 @@ pub fn run_case(idents: &[Ident], idx: u64, rng: &mut Rng, _thorough: bool, hist
                     coq_list(&ds.iter().map(|d| d.to_string()).collect::<Vec<_>>()),
                     e.coq()
                 ));
+                let mut e2 = Enc::new();
+                e2.n(hash_table(&recs, &b.s.kbuckets.read()));
+                steps.push(format!("(SIter, {})", e2.coq()));
             } else {
                 // PING
                 let v6 = rng.chance(1, 3);
